@@ -14,6 +14,7 @@ import (
 	"time"
 
 	slug "github.com/hashicorp/go-slug"
+	"golang.org/x/sys/unix"
 
 	"verif/mc/core"
 	"verif/mc/fsx"
@@ -110,7 +111,13 @@ func BuildTree(W string, nodes []TNode) error {
 	sort.Slice(all, func(i, j int) bool { return len(all[i]) > len(all[j]) })
 	for _, p := range all {
 		fi, err := os.Lstat(p)
-		if err != nil || fi.Mode()&os.ModeSymlink != 0 {
+		if err != nil {
+			continue
+		}
+		if fi.Mode()&os.ModeSymlink != 0 {
+			// link times are part of the tree too: pin them (lutimes)
+			ts := []unix.Timespec{unix.NsecToTimespec(tarx.BaseTime.UnixNano()), unix.NsecToTimespec(tarx.BaseTime.UnixNano())}
+			unix.UtimesNanoAt(unix.AT_FDCWD, p, ts, unix.AT_SYMLINK_NOFOLLOW)
 			continue
 		}
 		mt := tarx.BaseTime
